@@ -231,6 +231,11 @@ func c02Dir(c *rt.Ctx, fsType string, r *rand.Rand, onlyReturns bool) {
 	e := fsx.NewEnv(v)
 	_ = v.Mkdir("/d", 0o755)
 	n := r.IntN(8)
+	// one directory in sixteen holds hundreds of entries, read in batches of up to 1000
+	big := r.IntN(16) == 0
+	if big {
+		n = 200 + r.IntN(1200)
+	}
 	want := map[string]bool{}
 	for i := 0; i < n; i++ {
 		name := fmt.Sprintf("e%d", i)
@@ -253,16 +258,25 @@ func c02Dir(c *rt.Ctx, fsType string, r *rand.Rand, onlyReturns bool) {
 	changing := r.IntN(4) == 0 || onlyReturns
 	kind := []string{"F.ReadDir", "F.Readdirnames"}[r.IntN(2)]
 	eofs := 0
-	for step := 0; step < 40 && eofs < 2; step++ {
+	maxSteps := 40
+	entriesCls := fmt.Sprint(n)
+	if big {
+		maxSteps = 400
+		entriesCls = ">=200"
+	}
+	for step := 0; step < maxSteps && eofs < 2; step++ {
 		k := kind
 		if mixed {
 			k = []string{"F.ReadDir", "F.Readdirnames"}[r.IntN(2)]
 		}
 		bn := []int64{1, 2, 3, 8}[r.IntN(4)]
+		if big {
+			bn = []int64{7, 64, 100, 256, 1000}[r.IntN(5)]
+		}
 		rr := e.Exec(fsx.Op{K: k, H: 0, N: bn})
 		hist = append(hist, fmt.Sprintf("%s(%d) -> %s", k, bn, rr))
 		if changing {
-			c.Rep.Case(fmt.Sprintf("%s|dir-handle-changing|entries=%d|%s", fsType, n, rr.Err), true)
+			c.Rep.Case(fmt.Sprintf("%s|dir-handle-changing|entries=%s|%s", fsType, entriesCls, rr.Err), true)
 			if fatalRes(rr) {
 				c.Disagree(fmt.Sprintf("%s|dir-handle-changing|%s", fsType, rr.Err), fmt.Sprintf("%s: on a directory handle whose directory shrinks and grows between the batches, %s does not return normally: %s", fsType, hist[len(hist)-1], rr.Raw), map[string]any{"fs": fsType, "history": hist})
 				return
@@ -292,7 +306,7 @@ func c02Dir(c *rt.Ctx, fsType string, r *rand.Rand, onlyReturns bool) {
 		if fatalRes(rr) {
 			return
 		}
-		sig := fmt.Sprintf("%s|dir-handle|entries=%d|mixed=%v|%s", fsType, n, mixed, rr.Err)
+		sig := fmt.Sprintf("%s|dir-handle|entries=%s|mixed=%v|%s", fsType, entriesCls, mixed, rr.Err)
 		c.Rep.Case(sig, n > 0)
 		names := strings.Fields(strings.Trim(rr.Val, "[]"))
 		if rr.Err == "eof" {
@@ -392,6 +406,45 @@ func c02Chdir(c *rt.Ctx, fsType string, r *rand.Rand) {
 	c.Rep.Count("complete_handle_chdir_scenarios", 1)
 }
 
+// c02Big: the same lockstep on a file of several MiB: writes of 1 byte to 3 MiB at offsets around the 32 KiB and
+// 1 MiB marks, truncations up and down across them, reads of up to 1 MiB, through an O_RDWR (sometimes O_APPEND)
+// handle and a second read-only handle. Contents are compared by digest after every step.
+func c02Big(c *rt.Ctx, fsType string, r *rand.Rand) {
+	sizes := []int{1, 4095, 4096, 32768, 32769, 65537, 1 << 20, 1<<20 + 1, 3 << 20}
+	offs := []int64{0, 1, 4096, 32768, 1<<20 - 1, 1 << 20, 1<<20 + 1, 2 << 20, 2260991, 3<<20 + 5, 5 << 20}
+	fl := syscall.O_RDWR | syscall.O_CREAT
+	if r.IntN(4) == 0 {
+		fl |= syscall.O_APPEND
+	}
+	prog := []fsx.Op{{K: "OpenFile", P: "/w/f", Flag: fl, Perm: 0o644, H: 0}, {K: "OpenFile", P: "/w/f", Flag: syscall.O_RDONLY, H: 1}}
+	blob := func(i, n int) string {
+		unit := fmt.Sprintf("<%d:%d>", i, n)
+		return strings.Repeat(unit, n/len(unit)+1)[:n]
+	}
+	for i := 0; i < 22; i++ {
+		n := sizes[r.IntN(len(sizes))]
+		off := offs[r.IntN(len(offs))]
+		switch r.IntN(9) {
+		case 0, 1:
+			prog = append(prog, fsx.Op{K: "F.Write", H: 0, Data: blob(i, n)})
+		case 2, 3:
+			prog = append(prog, fsx.Op{K: "F.WriteAt", H: 0, Data: blob(i, n), N: off})
+		case 4:
+			prog = append(prog, fsx.Op{K: "F.Truncate", H: 0, N: off})
+		case 5:
+			prog = append(prog, fsx.Op{K: "F.Seek", H: 0, N: off, M: 0})
+		case 6:
+			prog = append(prog, fsx.Op{K: "F.ReadAt", H: 1, N: int64(min3(n, 1<<20)), M: off})
+		case 7:
+			prog = append(prog, fsx.Op{K: "F.Read", H: 1, N: int64(min3(n, 1<<20))})
+		default:
+			prog = append(prog, fsx.Op{K: "Truncate", P: "/w/f", N: off})
+		}
+	}
+	c.Rep.Count("big_file_scenarios", 1)
+	c02Scenario(c, fsType, nil, prog, fl)
+}
+
 func init() {
 	register(&Check{
 		Prop:   "C02",
@@ -399,7 +452,7 @@ func init() {
 		Shards: shards(12, 16),
 		Meta: func(tier string) rt.Meta {
 			return rt.Meta{Level: "exploration", MinEvals: 5000, MinDistinct: 100,
-				Rule:        "differential lockstep against *os.File on tmpfs (chroot): scenarios of one file (0-40 bytes), optionally a second hard link, up to 3 handles opened with independently drawn flag sets (36 sets) and 60 steps of Read/ReadAt/Write/WriteAt/WriteString/Seek/Truncate/Stat/Sync/Chmod/Chown/Close/re-open and path-level Truncate/Rename/Link/Remove/Chmod/WriteFile of the file; offsets, sizes and lengths straddle the current size. After EVERY step the offset and Stat of every open handle and the content/size/mode/owner/nlink of every link are compared. Plus bounded-exhaustive: every sequence of 2 (quick) / 3 (thorough) operations of a reduced set for each flag set. Directory handles are judged against the statement itself; in one scenario out of four the directory shrinks and grows between the batches (every batch call must still return, with names that existed). Chdir on handles: handles opened under relative, unclean and symbolic-link names while the current directory moves (24 steps), Getwd compared after every step. Signature = fs | op | handle mode | offset-vs-size class | argument classes | outcome; non-trivial = not the first step.",
+				Rule:        "differential lockstep against *os.File on tmpfs (chroot): scenarios of one file (0-40 bytes), optionally a second hard link, up to 3 handles opened with independently drawn flag sets (36 sets) and 60 steps of Read/ReadAt/Write/WriteAt/WriteString/Seek/Truncate/Stat/Sync/Chmod/Chown/Close/re-open and path-level Truncate/Rename/Link/Remove/Chmod/WriteFile of the file; offsets, sizes and lengths straddle the current size. After EVERY step the offset and Stat of every open handle and the content/size/mode/owner/nlink of every link are compared. Plus bounded-exhaustive: every sequence of 2 (quick) / 3 (thorough) operations of a reduced set for each flag set. Directory handles are judged against the statement itself; in one scenario out of four the directory shrinks and grows between the batches (every batch call must still return, with names that existed). Chdir on handles: handles opened under relative, unclean and symbolic-link names while the current directory moves (24 steps), Getwd compared after every step. Modes given to path and handle Chmod include the setuid/setgid/sticky bits; every buffer given to a write is overwritten by the harness afterwards (aliasing); scenarios on files of several MiB (writes of 1 byte to 3 MiB around the 32 KiB and 1 MiB marks, truncations across them, reads of up to 1 MiB); one directory in sixteen holds 200-1400 entries read in batches of up to 1000. Signature = fs | op | handle mode | offset-vs-size class | argument classes | outcome; non-trivial = not the first step.",
 				Assumptions: []string{"Seek whence 3/4 (SEEK_DATA/HOLE) are never generated; error strings, Fd and mtimes are not compared", "WriteAt with an empty buffer on a closed handle is not compared (os.File returns nil there, the property demands a closed-file error)"}}
 		},
 		Timeout: func(tier string) int {
@@ -422,6 +475,12 @@ func init() {
 					c02Scenario(c, fsType, r, nil, -1)
 					c02Dir(c, fsType, r, false)
 					c02Chdir(c, fsType, r)
+				}
+				// files of several MiB
+				for h := 0; h < c.Pick(24, 480); h++ {
+					if h%c.NShards == c.Shard {
+						c02Big(c, fsType, c.Rand(fmt.Sprintf("c02-big-%s-%d", fsType, h)))
+					}
 				}
 				// bounded-exhaustive short sequences for every flag set
 				red := []fsx.Op{{K: "F.Read", N: 4}, {K: "F.Write", Data: "xyz"}, {K: "F.Seek", N: 9, M: 0}, {K: "F.Seek", N: -1, M: 2}, {K: "F.Truncate", N: 2}, {K: "F.Truncate", N: 9},
